@@ -90,6 +90,9 @@ func (e *Engine) info(fn *ssa.Function) *fnInfo {
 	}
 	fi := &fnInfo{name: fn.String()}
 	fi.intr = intrinsics[fi.name]
+	if fi.intr != nil && cmdOnlyIntrinsics[fi.name] && !strings.HasSuffix(e.pkg.Pkg.Path(), "/cmd/ion-go") {
+		fi.intr = nil // environment stubs of the cmd/ion-go harnesses do not apply when package ion itself is under test
+	}
 	if fn.Pkg != nil && strings.HasPrefix(fn.Pkg.Pkg.Path(), repoMod) {
 		p := e.prog.Fset.Position(fn.Pos())
 		if !strings.Contains(p.Filename, "zz_verif_") {
@@ -890,6 +893,10 @@ func (e *Engine) sliceBytes(s *SliceV) []*Term {
 
 func (e *Engine) builtin(f *frame, ins ssa.Instruction, bi *ssa.Builtin, c *ssa.CallCommon, args []Value) Value {
 	switch bi.Name() {
+	case "recover":
+		// a Go panic ends the path as a violation candidate in this engine, so deferred code never runs while
+		// panicking: recover() always reports "not panicking"
+		return nilIface
 	case "len":
 		switch x := args[0].(type) {
 		case *SliceV:
